@@ -3,7 +3,9 @@
    next = currentIteration + 1, as the controller does); [wf_doc] describes the documents considered: the
    (stage, name) pairs of the looped components are pairwise distinct (two looped components of different stages
    may have the same name), names hold no '#', the condition is produced in the loop, input bindings are bound
-   outside the loop, internal references name looped components. *)
+   outside the loop — possibly to a component that has the NAME of a looped component of another stage —, a
+   reference to a component [stageJ.]name names either a looped component (internal reference, identified by stage
+   AND name) or, directly, a component outside the loop. *)
 From Coq Require Import String List NArith Permutation.
 Import ListNotations.
 Require Import V.Lib.PyStr V.Lib.JTree V.Loop.Model V.Loop.Proofs V.Loop.Edges V.Loop.Subst.
@@ -27,7 +29,9 @@ Print Assumptions C05_instances.
 
 (* Instance i of component c exists with exactly the references [wire d i]: a reference through a loop binding
    points (for i > 0) at iteration i-1 of the bound producer, at stage (binding stage + import stage); any other
-   binding keeps its original value; an internal reference points at the same iteration.  Stage, file and method
+   binding keeps its original value; an internal reference (to the looped component with that STAGE and name)
+   points at the same iteration; a direct reference to a component outside the loop is kept as it is, also when a
+   looped component of another stage has the same name.  Stage, file and method
    of every rewritten reference are the same for every i > 0 (no drift of the stage offset). *)
 Theorem C05_wiring : forall (d : dowhile) (out : list ocomp) (k : nat) (i : N) (c : comp), wf_doc d ->
   i <= N.of_nat k -> In c (d_comps d) ->
@@ -93,7 +97,8 @@ Print Assumptions C05_edges_accumulate.
 (* Locality: when no loop binding aggregates over iterations, every reference of instance i names a component that
    is not a placeholder — by C05_edges it yields at most the single edge from that component — and that component
    is an instance of the same iteration, an instance of iteration i-1 (i > 0), or the original value of an input
-   binding (outside the loop).  So a reference of instance i that names an instance i'#n' has i' = i or i' = i-1:
+   binding (outside the loop), or — only for a reference r that names it directly — a component outside the loop,
+   unchanged.  So a reference of instance i that names an instance i'#n' has i' = i or i' = i-1:
    no edge from a later iteration, none from an iteration older than i-1. *)
 Theorem C05_edges_local : forall (d : dowhile) (i : N) (c : comp) (r : ref), wf_doc d -> no_agg_loopb d ->
   In c (d_comps d) -> In r (c_refs c) ->
@@ -102,7 +107,9 @@ Theorem C05_edges_local : forall (d : dowhile) (i : N) (c : comp) (r : ref), wf_
   ((exists n', a_prod a = iname i n') \/
    (0 < i /\ exists n', a_prod a = iname (i - 1) n') \/
    (exists b v, lookup b (d_binds d) = Some v /\ a_stage a = a_stage v /\ a_prod a = a_prod v /\
-                in_loop_ids d (a_stage v, a_prod v) = false)) /\
+                in_loop_ids d (a_stage v, a_prod v) = false) \/
+   (exists st n f m, r = RComp st n f m /\ a = mk_aref (opt_stage st (c_stage c) + d_stage d) n f m /\
+                     occurs "#" n = false)) /\
   ((forall b v, lookup b (d_binds d) = Some v -> occurs "#" (a_prod v) = false) ->
    forall i' n', a_prod a = iname i' n' -> i' = i \/ (0 < i /\ i' = i - 1)).
 Proof.
@@ -110,6 +117,17 @@ Proof.
   split; [exact H1|]. split; [exact H2|]. intros NH i' n' E. exact (wire_iterations d WF i c r i' n' NA NH Hc Hr E).
 Qed.
 Print Assumptions C05_edges_local.
+
+(* What the Controller sees when it inspects the placeholder of the looped component c (read-only:
+   _comp_get_active_predecessors, generate_status_report_for_nodes of Controller.initialise): exactly the instances
+   0..k of c plus instance k of the producer of the loop's condition. *)
+Theorem C05_placeholder_view : forall (d : dowhile) (out : list ocomp) (k : nat) (c : comp) (n : string), wf_doc d ->
+  In c (d_comps d) ->
+  (In n (ph_preds (unroll d out k) (comp_id (d_stage d) c)) <->
+   (exists i, i <= N.of_nat k /\ n = inode d i c) \/
+   (exists cc, In cc (d_comps d) /\ comp_id (d_stage d) cc = cond_id d /\ n = inode d (N.of_nat k) cc)).
+Proof. intros d out k c n WF Hc. exact (ph_preds_spec d out WF c k n Hc). Qed.
+Print Assumptions C05_placeholder_view.
 
 (* Command lines (flowir.rewrite_all_references = one re.sub(r'\b<text>\b', <new>, value, 1) per discovered
    reference text, in order).  (a) reference texts that do not occur word-bounded in a value leave it unchanged;
@@ -157,6 +175,22 @@ Example C05_nonvacuous :
   cur_cond (unroll ex_doc2 ex_out2 11) = "stage1.11#x/f:output"%string /\
   map_latest KeyInt (unroll ex_doc2 ex_out2 11) (0, "x"%string) = Some "stage0.11#x"%string /\
   map_latest KeyInt (unroll ex_doc2 ex_out2 11) (1, "x"%string) = Some "stage1.11#x"%string /\
+  (* name clashes with components outside the loop (ex_doc4: looped "work" of stage 1, plain stage0.work and
+     stage2.work): instance 11 of work reads iteration 10 of the LOOPED work, the plain stage0.work (binding) and
+     stage1.mid (direct); instance 11 of stop reads instance 11 of the looped work and the plain stage2.work;
+     outside references stage1.work / stage0.work resolve to instance 11 / the plain component; the Controller's
+     view of the placeholder stage1.work *)
+  wf_doc ex_doc4 /\ no_agg_loopb ex_doc4 /\
+  map pr_ref (map (wire ex_doc4 11 0) (c_refs (mk_comp "work" 0 [RBind "b0" "" "output"; RBind "base" "" "ref"; RComp None "mid" "" "ref"]))) =
+    ["stage1.10#work:output"; "stage0.work:ref"; "stage1.mid:ref"]%string /\
+  map pr_ref (map (wire ex_doc4 11 1) [RComp (Some 0) "work" "" "output"; RComp (Some 1) "work" "f" "ref"]) =
+    ["stage1.11#work:output"; "stage2.work/f:ref"]%string /\
+  resolve KeyInt (unroll ex_doc4 ex_out4 11) (mk_aref 1 "work" "" "ref") = "stages/stage1/11#work"%string /\
+  resolve KeyInt (unroll ex_doc4 ex_out4 11) (mk_aref 0 "work" "" "ref") = "stages/stage0/work"%string /\
+  existsb (edge_eqb ("stage0.work", "stage1.11#work")%string) (w_edges (unroll ex_doc4 ex_out4 11)) = true /\
+  existsb (edge_eqb ("stage2.work", "stage2.11#stop")%string) (w_edges (unroll ex_doc4 ex_out4 11)) = true /\
+  ph_preds (unroll ex_doc4 ex_out4 2) (1, "work"%string) =
+    ["stage1.0#work"; "stage1.1#work"; "stage1.2#work"; "stage2.2#stop"]%string /\
   (* command lines: 132 name pairs are swept, 'b' then 'a-b' is rewritten as intended *)
   length name_pairs = 132%nat /\ overlap "b" "a-b" = false /\
   rewritten 1 10 "b" "a-b" = "stage1.10#b:ref stage1.10#a-b:ref"%string.
@@ -171,5 +205,10 @@ Proof.
     split; [vm_compute; reflexivity|]. split; [vm_compute; reflexivity|]. split; [vm_compute; reflexivity|].
     split; [vm_compute; reflexivity|]. split; [exact ex_doc2_wf|].
     split; [vm_compute; reflexivity|]. split; [vm_compute; reflexivity|]. split; [vm_compute; reflexivity|].
+    split; [exact ex_doc4_wf|]. split.
+    { intros b l H. cbn in H. destruct (String.eqb b "b0"); [|discriminate]. inversion H. reflexivity. }
+    split; [vm_compute; reflexivity|]. split; [vm_compute; reflexivity|]. split; [vm_compute; reflexivity|].
+    split; [vm_compute; reflexivity|]. split; [vm_compute; reflexivity|]. split; [vm_compute; reflexivity|].
+    split; [vm_compute; reflexivity|].
     vm_compute. repeat split.
 Qed.
